@@ -267,6 +267,56 @@ func scripts() []scriptCase {
 		{"known-types-outside-registry", []string{
 			"CREATE TABLE kto (id INTEGER PRIMARY KEY, a TIMESTAMP, b CHAR(3), c TIME, d JSONB, e UINT64)",
 		}},
+		// string defaults with every placement of white space (the printed value must survive
+		// evaluation of the HCL document as well)
+		{"default-blank-edges", []string{
+			"CREATE TABLE wsd (id INTEGER PRIMARY KEY, a TEXT DEFAULT ' ', b TEXT DEFAULT '> ', c TEXT DEFAULT ' x', d TEXT DEFAULT '', e TEXT DEFAULT '   ', f TEXT NOT NULL DEFAULT ' y ', g VARCHAR(10) DEFAULT 'in side')",
+		}},
+		{"default-tab-newline", []string{
+			"CREATE TABLE wst (id INTEGER PRIMARY KEY, a TEXT DEFAULT 'a\tb', b TEXT DEFAULT '\t', c TEXT DEFAULT 'x\t', d TEXT DEFAULT 'line1\nline2', e TEXT DEFAULT '\n', f TEXT DEFAULT 'end\n')",
+		}},
+		// identifier shapes, each referenced from a primary key, an index, both sides of a foreign key
+		// and a check
+		{"ident-leading-digit", []string{
+			`CREATE TABLE "3d_models" ("1st_id" INTEGER NOT NULL, "2fa_enabled" INTEGER NOT NULL DEFAULT 0, "9name" TEXT, PRIMARY KEY ("1st_id"), CONSTRAINT "8ck" CHECK ("2fa_enabled" >= 0))`,
+			`CREATE INDEX "4idx" ON "3d_models" ("2fa_enabled", "9name" DESC)`,
+			`CREATE TABLE "5child" ("1st_id" INTEGER NOT NULL PRIMARY KEY, "6ref" INTEGER, CONSTRAINT "7fk" FOREIGN KEY ("6ref") REFERENCES "3d_models" ("1st_id") ON DELETE CASCADE, CONSTRAINT "0self" FOREIGN KEY ("1st_id") REFERENCES "5child" ("1st_id"))`,
+			`CREATE UNIQUE INDEX "5child_6ref" ON "5child" ("6ref") WHERE "6ref" > 0`,
+		}},
+		{"ident-all-digits", []string{
+			`CREATE TABLE "123" ("456" INTEGER NOT NULL, "7" TEXT, PRIMARY KEY ("456"), CONSTRAINT "99" CHECK ("456" > 0))`,
+			`CREATE INDEX "789" ON "123" ("7", "456" DESC)`,
+			`CREATE TABLE "124" ("1" INTEGER NOT NULL PRIMARY KEY, "2" INTEGER, CONSTRAINT fk_124 FOREIGN KEY ("2") REFERENCES "123" ("456"))`,
+		}},
+		{"ident-hcl-keywords", []string{
+			`CREATE TABLE "table" ("column" INTEGER NOT NULL, "null" TEXT, "true" INTEGER DEFAULT 1, "schema" TEXT, "type" TEXT, "for" TEXT, "index" TEXT, PRIMARY KEY ("column"), CONSTRAINT "check" CHECK ("true" >= 0))`,
+			`CREATE INDEX "index" ON "table" ("null", "for" DESC, "type")`,
+			`CREATE TABLE "column" ("table" INTEGER NOT NULL PRIMARY KEY, "if" INTEGER, CONSTRAINT "foreign_key" FOREIGN KEY ("if") REFERENCES "table" ("column") ON UPDATE CASCADE)`,
+		}},
+		{"ident-upper-case", []string{
+			"CREATE TABLE Users (ID INTEGER NOT NULL, UserName TEXT NOT NULL, BossID INTEGER, PRIMARY KEY (ID), CONSTRAINT CK_Name CHECK (UserName <> ''), CONSTRAINT FK_Boss FOREIGN KEY (BossID) REFERENCES Users (ID))",
+			"CREATE UNIQUE INDEX IX_Users_Name ON Users (UserName DESC) WHERE BossID IS NOT NULL",
+			"CREATE TABLE ORDERS (ID INTEGER NOT NULL PRIMARY KEY, USER_ID INTEGER CONSTRAINT FK_USER REFERENCES Users (ID) ON DELETE SET NULL)",
+		}},
+		{"ident-blank-dash-dot", []string{
+			`CREATE TABLE "my table" ("my id" INTEGER NOT NULL, "dash-col" TEXT, "dot.col" INTEGER, PRIMARY KEY ("my id"), CONSTRAINT "my check" CHECK ("dot.col" > 0))`,
+			`CREATE INDEX "my index" ON "my table" ("dash-col", "dot.col" DESC)`,
+			`CREATE TABLE "child-table" ("id" INTEGER NOT NULL PRIMARY KEY, "parent id" INTEGER, CONSTRAINT "my fk" FOREIGN KEY ("parent id") REFERENCES "my table" ("my id"))`,
+		}},
+		{"ident-quote-chars", []string{
+			`CREATE TABLE qt ("it's" INTEGER NOT NULL, "say ""hi""" TEXT, plain TEXT, PRIMARY KEY ("it's"))`,
+			`CREATE INDEX qt_i ON qt ("say ""hi""", "it's" DESC)`,
+		}},
+		{"ident-non-ascii", []string{
+			`CREATE TABLE "tëst" ("名前" INTEGER NOT NULL, "straße" TEXT, PRIMARY KEY ("名前"), CONSTRAINT "prüfung" CHECK ("名前" > 0))`,
+			`CREATE INDEX "índice" ON "tëst" ("straße" DESC, "名前")`,
+			`CREATE TABLE "kind" (id INTEGER NOT NULL PRIMARY KEY, "eltern" INTEGER, CONSTRAINT "schlüssel" FOREIGN KEY ("eltern") REFERENCES "tëst" ("名前"))`,
+		}},
+		{"ident-very-long", []string{
+			"CREATE TABLE t_very_long_table_name_very_long_table_name_very_long_table_name_very_long_table_name_very_long_table_name_very_long_table_name_very_long_table_name_very_long_table_name_very_long_table_name_end (c_very_long_column_name_very_long_column_name_very_long_column_name_very_long_column_name_very_long_column_name_very_long_column_name_very_long_column_name_very_long_column_name_very_long_column_name_end INTEGER NOT NULL, v TEXT, PRIMARY KEY (c_very_long_column_name_very_long_column_name_very_long_column_name_very_long_column_name_very_long_column_name_very_long_column_name_very_long_column_name_very_long_column_name_very_long_column_name_end), CONSTRAINT k_very_long_constraint_very_long_constraint_very_long_constraint_very_long_constraint_very_long_constraint_very_long_constraint_very_long_constraint_very_long_constraint_very_long_constraint_end CHECK (c_very_long_column_name_very_long_column_name_very_long_column_name_very_long_column_name_very_long_column_name_very_long_column_name_very_long_column_name_very_long_column_name_very_long_column_name_end > 0))",
+			"CREATE INDEX i_very_long_index_name_very_long_index_name_very_long_index_name_very_long_index_name_very_long_index_name_very_long_index_name_very_long_index_name_very_long_index_name_very_long_index_name_end ON t_very_long_table_name_very_long_table_name_very_long_table_name_very_long_table_name_very_long_table_name_very_long_table_name_very_long_table_name_very_long_table_name_very_long_table_name_end (v DESC, c_very_long_column_name_very_long_column_name_very_long_column_name_very_long_column_name_very_long_column_name_very_long_column_name_very_long_column_name_very_long_column_name_very_long_column_name_end)",
+			"CREATE TABLE longchild (id INTEGER NOT NULL PRIMARY KEY, c_very_long_column_name_very_long_column_name_very_long_column_name_very_long_column_name_very_long_column_name_very_long_column_name_very_long_column_name_very_long_column_name_very_long_column_name_end INTEGER, CONSTRAINT k_very_long_constraint_very_long_constraint_very_long_constraint_very_long_constraint_very_long_constraint_very_long_constraint_very_long_constraint_very_long_constraint_very_long_constraint_end_fk FOREIGN KEY (c_very_long_column_name_very_long_column_name_very_long_column_name_very_long_column_name_very_long_column_name_very_long_column_name_very_long_column_name_very_long_column_name_very_long_column_name_end) REFERENCES t_very_long_table_name_very_long_table_name_very_long_table_name_very_long_table_name_very_long_table_name_very_long_table_name_very_long_table_name_very_long_table_name_very_long_table_name_end (c_very_long_column_name_very_long_column_name_very_long_column_name_very_long_column_name_very_long_column_name_very_long_column_name_very_long_column_name_very_long_column_name_very_long_column_name_end))",
+		}},
 		{"rename-rewritten", []string{
 			"CREATE TABLE rn0 (id INTEGER PRIMARY KEY AUTOINCREMENT, v text CONSTRAINT rn_ck CHECK (v <> ''), p integer CONSTRAINT rn_fk REFERENCES rn0 (id))",
 			"ALTER TABLE rn0 RENAME TO rn",
